@@ -73,7 +73,7 @@ out.append('|---|---|---|---|---|---|')
 for f in sorted(glob.glob('/verif/seeded/*/meta.json')):
     m = json.load(open(f))
     res = ', '.join('%s %s' % (k, v) for k, v in m.get('check_results', {}).items())
-    out.append('| %s | %s | %s | %s | %s | %s |' % (m['seed'], m['breaks_property'], esc(m['needs_to_manifest']), esc(res), now.get(m['seed'], '-'), esc(hist(m.get('history', '')))))
+    out.append('| %s | %s | %s | %s | %s | %s |' % (m['seed'], m['breaks_property'], esc(m['needs_to_manifest']), esc(res), ('n/a: cannot manifest since fix ' + m['obsolete_since']) if m.get('obsolete_since') else now.get(m['seed'], '-'), esc(hist(m.get('history', '')))))
 out.append('')
 text = '\n'.join(out)
 d = open('/verif/DESIGN.md').read()
